@@ -282,6 +282,16 @@ func (w *mtWorkload) snapshot(ctx sdk.Context) *mtSnap {
 }
 
 func (w *mtWorkload) Observe(br *rig.BlockRecord) {
+	if w.quiet {
+		// on a shared chain there are no MT snapshots per tx: resynchronise the generator's view from the chain
+		w.model = w.snapshot(w.r.Ctx()).Classes
+		for _, tx := range br.Txs {
+			if tag, ok := tx.Tag.(*mtTag); ok {
+				w.run.Count("mt-"+tag.Op+okSuffix(tx), 1)
+			}
+		}
+		return
+	}
 	for _, tx := range br.Txs {
 		tag, _ := tx.Tag.(*mtTag)
 		if tag == nil || len(tx.Msgs) != 1 {
